@@ -409,7 +409,6 @@ func (w *c16World) genCase(c *Ctx, g *c16Gen, iter int) *c16Case {
 		cs.codes[w.slots[0]] = g.selfRecursive(op, w.slots[0], r.Intn(2) == 0)
 		cs.Gas = 1 << 52
 		cs.Value = 0
-		cs.maxTrace = 14000
 	default:
 		cs.Kind = "nested"
 		for i := len(w.slots) - 1; i >= 0; i-- {
@@ -485,77 +484,131 @@ func c16(c *Ctx) {
 	// the opcode table as the code derives it (+ baked-table regeneration when asked)
 	c16EmitTable(c, w)
 
-	for iter := 0; iter < c.N; iter++ {
-		cs := w.genCase(c, g, iter)
-		c.Count("kind=" + cs.Kind)
-		c.Count("entry=" + cs.Entry)
-		r1 := w.run(cs, nil)
-		r2 := w.run(cs, nil)
-		tr := &c16Tracer{max: cs.maxTrace}
-		r3 := w.run(cs, tr)
-		c.Count("result=" + strings.SplitN(r1.err, ":", 2)[0])
-		if os.Getenv("VERIF_C16_DEBUG") != "" {
-			fmt.Fprintf(os.Stderr, "#%d %s %s gas=%d value=%d -> err=%s left=%d panic=%q logs=%d->%d %v steps=%d maxdepth=%d\n", iter, cs.Kind, cs.Entry, cs.Gas, cs.Value, r1.err, r1.gasLeft, r1.panicMsg, r1.logsPre, r1.logsPost, r1.newLogs, tr.nsteps, tr.maxDepth)
-		}
-
-		// (O1) no panic
-		if r1.panicMsg != "" {
-			c.Count("panic")
-			c.Fail("c16/panic/"+c16Slug(r1.panicMsg), fmt.Sprintf("EVM %s panicked: %s (kind=%s gas=%d value=%d)", cs.Entry, r1.panicMsg, cs.Kind, cs.Gas, cs.Value), cs)
-			continue
-		}
-		// (O2) determinism (untraced twice, traced once)
-		if r1.key() != r2.key() {
-			c.Fail("c16/nondeterministic", fmt.Sprintf("two runs from the same state differ:\n%s\n%s", r1.key(), r2.key()), cs)
-		} else if r1.key() != r3.key() {
-			c.Fail("c16/tracer-changes-result", fmt.Sprintf("traced run differs:\n%s\n%s", r1.key(), r3.key()), cs)
-		}
-		// (O3) gas bound
-		if r1.gasLeft > cs.Gas {
-			c.Fail("c16/gas-exceeds-supplied", fmt.Sprintf("gas left %d > supplied %d", r1.gasLeft, cs.Gas), cs)
-		}
-		// (O4) failed call leaves the state as before (apart from the platform's failure event)
-		if r1.err != "nil" {
-			c.Count("nontrivial:failed-top-level")
-			if r1.pre != r1.post {
-				c.Fail("c16/failed-call-changed-state/"+c16DiffClass(r1.pre, r1.post), fmt.Sprintf("err=%s but state differs: %s", r1.err, c16Diff(r1.pre, r1.post)), cs)
-			}
-			if !r1.prefixOK {
-				c.Fail("c16/failed-call-lost-logs", fmt.Sprintf("err=%s: change logs recorded before the call were removed or replaced (%d -> %d)", r1.err, r1.logsPre, r1.logsPost), cs)
-			}
-			bad := false
-			for _, l := range r1.newLogs {
-				if !strings.HasPrefix(l, fmt.Sprintf("%d@", account.AddEventLog)) {
-					bad = true
-				}
-			}
-			if bad || len(r1.newLogs) > 1 {
-				c.Fail("c16/failed-call-left-logs", fmt.Sprintf("err=%s: change logs left behind: %v", r1.err, r1.newLogs), cs)
-			}
-		}
-		// (O5) static call changes nothing
-		if cs.Entry == "static" {
-			c.Count("nontrivial:static")
-			if r1.pre != r1.post {
-				c.Fail("c16/static-changed-state/"+c16DiffClass(r1.pre, r1.post), fmt.Sprintf("static call changed state: %s", c16Diff(r1.pre, r1.post)), cs)
-			}
-			var odd []string
-			for _, l := range r1.newLogs {
-				if !strings.HasPrefix(l, fmt.Sprintf("%d@", account.AddEventLog)) && !strings.HasPrefix(l, fmt.Sprintf("%d@", account.BalanceLog)) {
-					odd = append(odd, l)
-				}
-			}
-			if len(odd) > 0 {
-				c.Fail("c16/static-wrote-logs", fmt.Sprintf("static call left change logs %v", odd), cs)
-			}
-			if len(r1.newLogs) > 0 {
-				c.Count("static:left-noop-balance-or-event-logs")
-			}
-		}
-		// (O6) trace-level checks + correspondence lines
-		tr.check(c, cs)
-		tr.emit(c, cs, r3)
+	for _, cs := range w.fixedCases(g) {
+		c16RunCase(c, w, cs)
 	}
+	for iter := 0; iter < c.N; iter++ {
+		c16RunCase(c, w, w.genCase(c, g, iter))
+	}
+}
+
+// fixedCases: hand-made witnesses that every run replays (independent of the seed).
+func (w *c16World) fixedCases(g *c16Gen) []*c16Case {
+	mk := func(kind, entry string, gas, value uint64, codes map[common.Address][]byte) *c16Case {
+		cs := &c16Case{Kind: kind, Entry: entry, Caller: w.eoa, Target: w.slots[0], Gas: gas, Value: value, codes: codes, maxTrace: 700}
+		return cs
+	}
+	var out []*c16Case
+	// value to a failing callee, value to a succeeding callee, then fail (journal version counters, C07)
+	for _, term := range []int{2, 3} {
+		out = append(out, mk("fixed:value-fail-value-ok-fail", "call", 1000000, 0, map[common.Address][]byte{
+			w.slots[0]: g.journalWitness(w.gFail, w.gOK, term),
+		}))
+	}
+	// callee (deployed in this block) self-destructs, caller reverts
+	a := &asm{}
+	g.callStmt2(a, w.slots[1], 0)
+	a.push(0).push(0).op(opREVERT)
+	out = append(out, mk("fixed:selfdestruct-then-revert", "call", 1000000, 0, map[common.Address][]byte{
+		w.slots[0]: a.b,
+		w.slots[1]: (&asm{}).pushAddr(w.eoa).op(opSELFDESTRUCT).b,
+	}))
+	// same with a contract whose code is already stored in the database
+	b := &asm{}
+	b.push(0).push(0).push(0).push(0).pushAddr(w.gOK).push(100000).op(opDELEGATECALL, opPOP)
+	out = append(out, mk("fixed:nested-ok-then-invalid", "call", 1000000, 5, map[common.Address][]byte{
+		w.slots[0]: append(b.b, opINVALID),
+	}))
+	// static call into the state-writing reward precompile by the reward manager
+	st := mk("fixed:static-reward-precompile", "static", 100000, 0, nil)
+	st.Caller = w.rewardMgr
+	st.Target = common.BytesToAddress([]byte{9})
+	st.input = []byte(`{"term":"0x2","value":"835732000000000000000000"}`)
+	out = append(out, st)
+	// depth limit
+	for _, op := range []byte{opCALL, opDELEGATECALL} {
+		d := mk("fixed:self-recursive", "call", 1<<52, 0, map[common.Address][]byte{w.slots[0]: g.selfRecursive(op, w.slots[0], op == opCALL)})
+		d.maxTrace = 14000
+		out = append(out, d)
+	}
+	for _, cs := range out {
+		if cs.codes == nil {
+			cs.codes = map[common.Address][]byte{}
+		}
+		cs.fill()
+	}
+	return out
+}
+
+func c16RunCase(c *Ctx, w *c16World, cs *c16Case) {
+	c.Count("kind=" + cs.Kind)
+	c.Count("entry=" + cs.Entry)
+	r1 := w.run(cs, nil)
+	r2 := w.run(cs, nil)
+	tr := &c16Tracer{max: cs.maxTrace}
+	r3 := w.run(cs, tr)
+	c.Count("result=" + strings.SplitN(r1.err, ":", 2)[0])
+	if os.Getenv("VERIF_C16_DEBUG") != "" {
+		fmt.Fprintf(os.Stderr, "#%s %s gas=%d value=%d -> err=%s left=%d panic=%q logs=%d->%d (+%d) steps=%d maxdepth=%d\n", cs.Kind, cs.Entry, cs.Gas, cs.Value, r1.err, r1.gasLeft, r1.panicMsg, r1.logsPre, r1.logsPost, len(r1.newLogs), tr.nsteps, tr.maxDepth)
+	}
+
+	// (O1) no panic
+	if r1.panicMsg != "" {
+		c.Count("panic")
+		c.Fail("c16/panic/"+c16Slug(r1.panicMsg), fmt.Sprintf("EVM %s panicked: %s (kind=%s gas=%d value=%d)", cs.Entry, r1.panicMsg, cs.Kind, cs.Gas, cs.Value), cs)
+		return
+	}
+	// (O2) determinism (untraced twice, traced once)
+	if r1.key() != r2.key() {
+		c.Fail("c16/nondeterministic", fmt.Sprintf("two runs from the same state differ:\n%s\n%s", r1.key(), r2.key()), cs)
+	} else if r1.key() != r3.key() {
+		c.Fail("c16/tracer-changes-result", fmt.Sprintf("traced run differs:\n%s\n%s", r1.key(), r3.key()), cs)
+	}
+	// (O3) gas bound
+	if r1.gasLeft > cs.Gas {
+		c.Fail("c16/gas-exceeds-supplied", fmt.Sprintf("gas left %d > supplied %d", r1.gasLeft, cs.Gas), cs)
+	}
+	// (O4) failed call leaves the state as before (apart from the platform's failure event)
+	if r1.err != "nil" {
+		c.Count("nontrivial:failed-top-level")
+		if r1.pre != r1.post {
+			c.Fail("c16/failed-call-changed-state/"+c16DiffClass(r1.pre, r1.post), fmt.Sprintf("err=%s but state differs: %s", r1.err, c16Diff(r1.pre, r1.post)), cs)
+		}
+		if !r1.prefixOK {
+			c.Fail("c16/failed-call-lost-logs", fmt.Sprintf("err=%s: change logs recorded before the call were removed or replaced (%d -> %d)", r1.err, r1.logsPre, r1.logsPost), cs)
+		}
+		bad := false
+		for _, l := range r1.newLogs {
+			if !strings.HasPrefix(l, fmt.Sprintf("%d@", account.AddEventLog)) {
+				bad = true
+			}
+		}
+		if bad || len(r1.newLogs) > 1 {
+			c.Fail("c16/failed-call-left-logs", fmt.Sprintf("err=%s: change logs left behind: %v", r1.err, r1.newLogs), cs)
+		}
+	}
+	// (O5) static call changes nothing
+	if cs.Entry == "static" {
+		c.Count("nontrivial:static")
+		if r1.pre != r1.post {
+			c.Fail("c16/static-changed-state/"+c16DiffClass(r1.pre, r1.post), fmt.Sprintf("static call changed state: %s", c16Diff(r1.pre, r1.post)), cs)
+		}
+		var odd []string
+		for _, l := range r1.newLogs {
+			if !strings.HasPrefix(l, fmt.Sprintf("%d@", account.AddEventLog)) && !strings.HasPrefix(l, fmt.Sprintf("%d@", account.BalanceLog)) {
+				odd = append(odd, l)
+			}
+		}
+		if len(odd) > 0 && r1.pre == r1.post {
+			c.Fail("c16/static-wrote-logs", fmt.Sprintf("static call left change logs %v", odd), cs)
+		}
+		if len(r1.newLogs) > 0 {
+			c.Count("static:left-noop-balance-or-event-logs")
+		}
+	}
+	// (O6) trace-level checks + correspondence lines
+	tr.check(c, cs)
+	tr.emit(c, cs, r3)
 }
 
 // c16Diff lists the per-address entries of two dumps that differ.
